@@ -745,6 +745,21 @@ impl<F: Fam> Ctx<F> {
 
         // ---- C03: progress and reclamation
         let removed = f.removed_from_old;
+        // a key-adding call that finds (or leaves) nothing to move in the old table frees it
+        // before inserting; what follows is judged as a call on a map without an old table
+        let mut pre_old = pre.hook.old;
+        if let Some(o) = pre_old {
+            if key_adding && !f.clears && removed <= o.len && o.len - removed == 0 && matches!(f.kind, Kind::Point) {
+                let still_same = post.hook.old.map_or(false, |po| po.buckets == o.buckets);
+                if !still_same {
+                    if removed > 0 {
+                        self.meta[s].emptied_by_removal = true;
+                    }
+                    self.episode_end(s, if o.len == 0 { 2 } else { 1 });
+                    pre_old = None;
+                }
+            }
+        }
         match f.kind {
             Kind::Point | Kind::Bulk => {
                 if f.clears {
@@ -752,7 +767,7 @@ impl<F: Fam> Ctx<F> {
                         fail!(self, [C03, C01], "old-table-survives-clear", "old table still present after clear/drain");
                     }
                     self.episode_end(s, 3);
-                } else if let Some(o) = pre.hook.old {
+                } else if let Some(o) = pre_old {
                     let after_removal = o.len.saturating_sub(removed);
                     if removed > o.len {
                         fail!(self, [C03], "old-accounting", "removed {} from an old table of {}", removed, o.len);
@@ -830,7 +845,7 @@ impl<F: Fam> Ctx<F> {
                         None => {
                             if key_adding && post.hook.main_buckets != pre.hook.main_buckets && pre.hook.main_len > 0 {
                                 // grew and finished within the same call (L0 <= R)
-                                if pre.hook.main_len > r {
+                                if pre.hook.main_len > r * f.adds.max(1) {
                                     fail!(self, [C02, C03], "all-at-once-growth",
                                         "table grew from {} to {} buckets with {} elements and no old table was kept",
                                         pre.hook.main_buckets, post.hook.main_buckets, pre.hook.main_len);
@@ -844,7 +859,7 @@ impl<F: Fam> Ctx<F> {
                 }
             }
             Kind::Reserve => {
-                if pre.old_present() && post.old_present() && pre.hook.old.map(|o| o.buckets) != post.hook.old.map(|o| o.buckets) {
+                if pre.old_present() && post.old_present() && obs.alloc.allocs > 0 {
                     // carried everything over, then parked the previous main table
                     self.episode_end(s, 4);
                     self.episode_start(s, post.l(), 0);
@@ -858,6 +873,10 @@ impl<F: Fam> Ctx<F> {
             _ => {
                 if pre.old_present() && !post.old_present() {
                     self.episode_end(s, 5);
+                } else if pre.hook.old.map(|o| o.buckets) != post.hook.old.map(|o| o.buckets) || obs.alloc.allocs > 0 {
+                    // a resize started (or was replaced) inside a multi-insert call: its start
+                    // was not observed, so it is not an episode the bound is checked for
+                    self.meta[s].episode = None;
                 }
             }
         }
@@ -904,7 +923,7 @@ impl<F: Fam> Ctx<F> {
                             dup = Some(**h);
                         }
                     }
-                    if own > own_bound || others.len() > r || nh > r + 2 || dup.is_some() {
+                    if own > own_bound || others.len() > r || nh > r + own_bound || dup.is_some() {
                         fail!(self, [C02], "hash-bound-key-adding",
                             "key-adding call did {} hash computations ({} of the added key, {} of {} other objects, duplicate {:?}); bound R+2 = {}",
                             nh, own, others.len(), seen.len(), dup, r + 2);
